@@ -205,8 +205,36 @@ def rule_d(repo, chk):
     chk.ob('C20.d', ok, imp, 'the importer starts from inference_state.get_sys_path()')
 
 
+def rule_e(repo, chk):
+    chk.clause('C20.e', 'a saved project is found again: in get_default_project every directory of the upward walk is first offered to '
+                        'Project.load (no iteration moves on - continue, or the next heuristic - before the load was attempted), and a loaded '
+                        'project is returned as is')
+    f = repo.find('jedi.api.project', 'get_default_project')
+    c = cfg_of(f)
+    heads = [n for n in c.nodes if n.kind == 'for']
+    chk.floor('C20.e', len(heads), 1, '(directory walk in get_default_project)')
+    loads = [x for x in calls_in(f, 'load') if norm(x.func) == 'Project.load']
+    chk.floor('C20.e', len(loads), 1, '(Project.load in get_default_project)')
+
+    def is_load(n):
+        return node_has(n, lambda x: x in loads)
+    for h in heads:
+        body = [m for m, k in h.succ if k == 'T']
+        if any(is_load(m) for m in body):
+            p = None
+        else:
+            p = c.reach(body, lambda n: n.kind == 'for' or n is c.exit, block_node=is_load, kinds={'n', 'T', 'F'})
+            if p is None and any(m.kind == 'for' or m is c.exit for m in body):
+                p = [(body[0], None)]
+        chk.ob('C20.e', p is None, h.ast, 'every directory is offered to Project.load before anything else decides about it',
+               'a directory is passed over without the load: %s' % c.describe(p) if p else '')
+    for x in loads:
+        st = repo.enclosing_stmt(x)
+        chk.ob('C20.e', isinstance(st, ast.Return) and st.value is x, x, 'the loaded project is returned unchanged')
+
+
 def describe(chk):
     chk.undecided('which of two same-named modules an import resolves to (run-time); default project discovery heuristics')
 
 
-RULES = [('C20.a', rule_a), ('C20.b', rule_b), ('C20.c', rule_c), ('C20.d', rule_d)]
+RULES = [('C20.a', rule_a), ('C20.b', rule_b), ('C20.c', rule_c), ('C20.d', rule_d), ('C20.e', rule_e)]
